@@ -31,5 +31,5 @@ Definition create_arrays_projected (itemsizes : list Z) (reserved : Z) : Z := ma
 (* Plan._find_ops_exceeding_memory / FinalizedPlan.validate on (projected, allowed) pairs *)
 Definition exceeds (pa : Z * Z) : bool := snd pa <? fst pa.
 Definition ops_exceeding (ops : list (Z * Z)) : list (Z * Z) := filter exceeds ops.
-Definition admitted (ops : list (Z * Z)) : bool := match ops_exceeding ops with [] => true | _ => false end.
+Definition plan_accepted (ops : list (Z * Z)) : bool := match ops_exceeding ops with [] => true | _ => false end.
 Definition max_projected (ops : list (Z * Z)) : Z := fold_left (fun m pa => Z.max (fst pa) m) ops 0.
